@@ -43,7 +43,7 @@ def run(ctx):
     kinds_all = list(G.MODEL_FIELDS)
     tmpdir = os.environ.get("VERIF_TMP", "/tmp")
 
-    n = ctx.pick(700, 40000)
+    n = ctx.pick(700, 200000)
     for i, rng in ctx.cases("solution", n):
         # coverage table first: each kind alone, then each kind in a cooperative pair, then schema-ordered lists
         if i < len(kinds_all):
